@@ -114,6 +114,18 @@ def gen_plans(run):
             else:
                 p.append(dict(op="Clear", arg=0, w=run.rng.choice(live)))
         plans.append(p)
+    # "Clone works for a tree of any size": large trees built in ascending / seeded order, cloned, then both copies changed
+    for n in ((255, 1000) if run.quick() else (255, 1000, 5000, 20000)):
+        for order in ("asc", "rnd"):
+            vals = list(range(1, n + 1))
+            if order == "rnd":
+                run.rng.shuffle(vals)
+            p = [dict(op="Reset", nv=n, ty=("int" if order == "asc" else "ordered"))]
+            p += [dict(op="Add", arg=v, w=1, full=False) for v in vals]
+            p += [dict(op="Clone", arg=0, src=1, dst=2, w=1, full=(n <= 1000)), dict(op="Remove", arg=vals[0], w=1, full=False),
+                  dict(op="Add", arg=vals[1], w=2, full=False), dict(op="Clone", arg=0, src=2, dst=3, w=1, full=False),
+                  dict(op="Remove", arg=vals[2], w=3, full=(n <= 5000))]
+            plans.append(p)
     # many copies of few values: every Add-only history over 3 (thorough: 4) values up to length 7, observed in full at the end and
     # after the last two steps; then seeded Add/Remove histories over 2-4 values (rotations carry equal values to both sides)
     nvd = 3 if run.quick() else 4
